@@ -248,6 +248,20 @@ def seed_chain(w: World):
         w.add_node(n)
 
 
+@seed
+def seed_dupnames(w: World):
+    # two nodes carrying one name and two values carrying one name (legal in the IR; names are the user's business)
+    v0 = w.add_value(ir.Value(name="a"))
+    n0 = ir.Node("", "Relu", [v0], name="dup")
+    n1 = ir.Node("", "Neg", [v0], name="dup")
+    n0.outputs[0].name = "o"
+    n1.outputs[0].name = "o"
+    w.add_graph(ir.Graph([v0], [n0.outputs[0]], nodes=[n0, n1], name="G0"))
+    w.add_graph(ir.Graph([], [], nodes=[], name="G1"))
+    for n in (n0, n1):
+        w.add_node(n)
+
+
 # ---------------------------------------------------------------------------
 # ops: each returns a thunk so that argument resolution (harness) is separated
 # from the public call (system under test)
